@@ -53,7 +53,7 @@ POW = "BankErosion,USLEFineSedimentGeneration,DynamicSednetGully"   # math.Pow /
 CHECK = Check(
     "C16",
     props_modules=["OW.Props.C16.Conversion", "OW.Props.C16.Partition", "OW.Props.C16.LoadGen",
-                   "OW.Props.C16.Sediment", "OW.Props.C16.Usle"],
+                   "OW.Props.C16.Sediment", "OW.Props.C16.Usle", "OW.Props.Rounded.C16", "OW.Props.Rounded.C16Sediment"],
     extra_lake_targets=["OW.Props.C16"],
     pre_steps=[gentie_step, unit_constants],
     families=[
@@ -62,6 +62,7 @@ CHECK = Check(
     ],
     level="proof",
     trusted=[
+        "OW.Props.Rounded.C16: the INEQUALITY clauses are also proved over rounded arithmetic — the same kernel definitions instantiated at RNum R (OW/Proofs/Rounded.lean: every operation = exact real result followed by a rounding R.rnd that is monotone, odd, idempotent and fixes 0; literals rounded once; min/max/comparisons exact), for EVERY such R. Interpretation (not a Lean term): IEEE-754 binary64 round-to-nearest (or toward zero) on computations without overflow/NaN is one such R; math.Pow/Exp/Log are idealised as correctly rounded (only their sign / range is used). Two concrete non-identity instances (grid truncation, grid rounding away from zero) are constructed as witnesses",
         "hand-written Lean models OW/Kernels/C16/*.lean of models/conversion/*.go, models/functions/*.go (except dates.go) "
         "and models/generation/*.go, tied to the code on every run by the K correspondence: the real generated wrapper + "
         "kernel of each catalogued model run on one cell vs the compiled model, bit-exact for the 18 arithmetic-only "
@@ -73,6 +74,7 @@ CHECK = Check(
         "oracle for the failing-input search: the identities recomputed in Go on the implementation's outputs",
     ],
     assumptions=[
+        "rounded theorems (OW.Props.Rounded.C16): 0 <= fraction <= 1 and non-negative input for the partition bounds (Rep 1 only for output2 <= input and proportion <= 1); the sum identities out1+out2 = input and the exact linear forms are exact-arithmetic only; OW.Props.Rounded.C16Sediment: BankErosion / gully / USLE non-negativity with Rep 100 and, for BankErosion, the computed fine fraction soilPercentFine*0.01 <= 1 (true in binary64 for every percentage <= 100 because fl(100*fl(0.01)) = 1.0; not a consequence of monotone rounding since fl(0.01) > 0.01)",
         "input series of one call have equal length (guaranteed by the 3-d input array)",
         "time steps and areas used as divisors are positive where a theorem divides by them",
         "rating-curve partition: statements hold whenever the kernel returns; it returns for every input inside the "
